@@ -179,7 +179,7 @@ def run(tier, seed_):
     uncovered = [f for f in fns if f not in RECIPES]
     allv = [n for n, _ in variants() if n.split("[")[0].split("#")[0] in fns]
     rng = random.Random(seed_)
-    per_fn = 24 if tier == "quick" else len(scheds)
+    per_fn = 24 if tier == "quick" else 400
     jobs = []
     for i, fn in enumerate(allv):
         pick = scheds if len(scheds) <= per_fn else rng.sample(scheds, per_fn)
@@ -187,8 +187,8 @@ def run(tier, seed_):
             pick = pick[:8]
         slow = fn.split("[")[0] in ("spectral_clustering", "pairwise_spring_layout", "barycenter_spring_layout",
                       "weighted_barycenter_spring_layout", "bipartite_spring_layout")
-        if slow and tier == "quick":
-            pick = pick[:12]
+        if slow:
+            pick = pick[:12] if tier == "quick" else pick[:80]
         jobs.append((fn, pick, i * 100003))
     recs = []
     with ProcessPoolExecutor(max_workers=common.NCPU) as ex:
